@@ -238,10 +238,13 @@ class Repo:
         self.refresh_class_index()
         self.inliner = None
         self.renamed = {}
+        self.reoutlined = {}
         if inline:
             from .inline import flatten, load_inventory
             from .unrename import recover
             self.renamed = recover(self, load_inventory())
+            from .outline import reoutline
+            self.reoutlined = reoutline(self, load_inventory())
             self.inliner = flatten(self)
 
     def refresh_class_index(self):
